@@ -4,9 +4,10 @@ import Driver.C09
 import Driver.C10
 import Driver.Scheme
 import Driver.C01
+import Driver.C02
 open Drv
 
-def handlers : List (String → Handler) := [Drv.C08.handle, Drv.C09.handle, Drv.C10.handle, Drv.Sch.handle, Drv.C01.handle]
+def handlers : List (String → Handler) := [Drv.C08.handle, Drv.C09.handle, Drv.C10.handle, Drv.Sch.handle, Drv.C01.handle, Drv.C02.handle]
 
 def answer (line : String) : String :=
   let (lhs, impl) := match line.trimAscii.toString.splitOn " => " with
